@@ -55,6 +55,9 @@ THEOREMS = [
     "SleapVerif.C19.no_key_at_any_crash_point_same_folder",
     "SleapVerif.C19.artefacts_complete_same_folder",
     "SleapVerif.C19.train_total_same_folder",
+    "SleapVerif.C19.no_key_after_interrupted_A",
+    "SleapVerif.C19.no_key_at_any_crash_point_aborted",
+    "SleapVerif.C19.config_artefacts_after_abort",
     "SleapVerif.C19.keyFixed_fresh_eq_repaired",
     "SleapVerif.C19.reuse_bottomup_raises_counterexample",
     "SleapVerif.C19.keyFixed_reuse_partial",
@@ -74,6 +77,12 @@ FWS = ["torch_dataset", "torch_dataset_np_chunks"]
 
 
 # ====================================================================== recorder (hooks)
+class SimulatedDeath(BaseException):
+    """raised by the recorder right after the k-th logged write of a run: nothing after that write runs in the
+    trainer (the harness uses it only before `train()`'s try/finally, where it is indistinguishable on disk
+    from the process being killed at that write boundary)"""
+
+
 class Recorder:
     """Logs every write below `roots` in order; scans for the key at every boundary."""
 
@@ -92,12 +101,14 @@ class Recorder:
         self.chunk_open = set()
         self.n_scans = 0
         self.cache = {}
+        self.last_saved_cfg = None
         self.active = True
         self.boundary(inner=False, trigger="start")
         self.states.append(self.observe())
 
     def stop(self):
         self.active = False
+        self.crash_after = None
 
     # ---- helpers
     def under(self, p) -> bool:
@@ -178,10 +189,12 @@ class Recorder:
             self.events.append((kind, name))
             self.boundary(inner=False, trigger=f"{kind}:{name}")
             self.states.append(self.observe())
+            if getattr(self, "crash_after", None) == len(self.events):
+                raise SimulatedDeath(f"process dies after write #{len(self.events)} ({kind}:{name})")
 
     # ---- audit hook: every write-open / rename below the roots
     def audit(self, ev, args):
-        if not self.active or ev not in ("open", "os.rename"):
+        if not self.active or ev not in ("open", "os.rename", "os.remove"):
             return
         if getattr(self.tl, "busy", False):
             return
@@ -195,6 +208,20 @@ class Recorder:
                         return
                 elif not (isinstance(flags, int) and flags & (os.O_WRONLY | os.O_RDWR | os.O_CREAT | os.O_TRUNC | os.O_APPEND)):
                     return
+            elif ev == "os.remove":
+                # a file is about to be deleted (os.remove / os.unlink): scan BEFORE it disappears
+                path = args[0]
+                if isinstance(path, int) or path is None:
+                    return
+                p = os.path.realpath(os.path.abspath(os.fsdecode(path)))
+                if self.under(p):
+                    self.tl.busy = True
+                    try:
+                        with self.lock:
+                            self.boundary(inner=True, trigger="remove:" + self.rel(p))
+                    finally:
+                        self.tl.busy = False
+                return
             else:
                 path = args[1]
             p = os.fsdecode(path)
@@ -297,7 +324,16 @@ def install_hooks():
         return x if isinstance(x, (str, bytes, os.PathLike)) else None
 
     o_save = OmegaConf.save
-    OmegaConf.save = staticmethod(wrap(o_save, lambda config=None, f=None, *a, **k: pathlike(f), "W"))
+
+    def o_save_rec(config=None, f=None, *a, **k):
+        if REC.active:
+            try:
+                REC.last_saved_cfg = OmegaConf.to_container(config, resolve=True)
+            except Exception:
+                pass
+        return o_save(config, f, *a, **k)
+
+    OmegaConf.save = staticmethod(wrap(o_save_rec, lambda config=None, f=None, *a, **k: pathlike(f), "W"))
     t_save = torch.save
     torch.save = wrap(t_save, lambda obj=None, f=None, *a, **k: pathlike(f), "W")
     c_save = TorchCheckpointIO.save_checkpoint
@@ -362,8 +398,9 @@ def plain_config(case, run):
             "np_chunks_path": run["np_chunks_path"], "litdata_chunks_path": None,
             "use_existing_chunks": bool(case.get("reuse")),
             "delete_chunks_after_training": case["delete"], "chunk_size": 100,
-            "preprocessing": {"is_rgb": False, "max_width": None, "max_height": None, "scale": 1.0,
-                              "crop_hw": [160, 160], "min_crop_size": None},
+            "preprocessing": {"is_rgb": False, "max_width": None, "max_height": None,
+                              "scale": None if case.get("auto_prep") else 1.0,
+                              "crop_hw": None if case.get("auto_prep") else [160, 160], "min_crop_size": None},
             "use_augmentations_train": False, "augmentation_config": None,
         },
         "model_config": {
@@ -373,8 +410,8 @@ def plain_config(case, run):
         "trainer_config": {
             "train_data_loader": {"batch_size": 1, "shuffle": False, "num_workers": 0},
             "val_data_loader": {"batch_size": 1, "num_workers": 0},
-            "model_ckpt": {"save_top_k": 1, "save_last": True},
-            "early_stopping": {"stop_training_on_plateau": False, "min_delta": 1e-08, "patience": 20},
+            "model_ckpt": {"save_top_k": 1, "save_last": (True if case.get("save_last", True) else None)},
+            "early_stopping": {"stop_training_on_plateau": bool(case.get("early_stop")), "min_delta": 1e-08, "patience": 20},
             "trainer_devices": 1, "trainer_accelerator": "cpu", "enable_progress_bar": False,
             "steps_per_epoch": 1, "max_epochs": case["epochs"], "seed": case["seed"],
             "use_wandb": case["wandb"], "save_ckpt": case["ckpt"], "save_ckpt_path": run["ckpt_dir"],
@@ -400,14 +437,51 @@ def structured_config(case, run):
     dc = get_data_config(train_labels_path=slp, val_labels_path=slp, data_pipeline_fw=case["fw"],
                          np_chunks_path=run["np_chunks_path"], delete_chunks_after_training=case["delete"],
                          use_existing_chunks=bool(case.get("reuse")),
-                         crop_hw=(160, 160), scale=1.0, min_crop_size=None)
+                         crop_hw=None if case.get("auto_prep") else (160, 160), scale=1.0,
+                         min_crop_size=100 if case.get("auto_prep") else None)
     mc = get_model_config(backbone_config={"unet": dict(UNET)}, head_configs={case["model"]: head_cfg(case["model"])})
     tc = get_trainer_config(batch_size=1, shuffle_train=False, num_workers=0, trainer_num_devices=1,
                             trainer_accelerator="cpu", steps_per_epoch=1, max_epochs=case["epochs"], seed=case["seed"],
                             use_wandb=case["wandb"], save_ckpt=case["ckpt"], save_ckpt_path=run["ckpt_dir"],
                             wandb_project="verif", wandb_name="c19", wandb_api_key=KEY, wandb_mode="offline",
-                            learning_rate=case.get("lr", 1e-4), lr_scheduler="reduce_lr_on_plateau")
+                            learning_rate=case.get("lr", 1e-4), lr_scheduler="reduce_lr_on_plateau",
+                            ckpt_save_top_k=1, ckpt_save_last=(True if case.get("save_last", True) else None),
+                            early_stopping=bool(case.get("early_stop")), early_stopping_patience=20)
     return TrainingJobConfig(data_config=dc, model_config=mc, trainer_config=tc).to_sleap_nn_cfg().copy()
+
+
+class InjectedAbort(RuntimeError):
+    """raised by the harness inside `Trainer.fit` to drive train()'s abort path"""
+
+
+class abort_injection:
+    """`abort = {"epoch": j, "kind": "exception" | "interrupt"}`: at the start of training epoch j (after j complete
+    epochs incl. validation and checkpointing) the LightningModule hook raises — an exception, or the
+    KeyboardInterrupt a user's Ctrl-C produces — inside `self.trainer.fit(...)` of `ModelTrainer.train()`."""
+
+    def __init__(self, abort):
+        self.abort = abort
+
+    def __enter__(self):
+        if not self.abort:
+            return
+        from sleap_nn.training.lightning_modules import TrainingModel
+
+        self.cls = TrainingModel
+        self.orig = orig = TrainingModel.on_train_epoch_start
+        abort = self.abort
+
+        def hook(module):
+            if module.current_epoch == abort["epoch"]:
+                raise (KeyboardInterrupt("injected") if abort["kind"] == "interrupt" else InjectedAbort("injected"))
+            return orig(module)
+
+        TrainingModel.on_train_epoch_start = hook
+
+    def __exit__(self, *a):
+        if self.abort:
+            self.cls.on_train_epoch_start = self.orig
+        return False
 
 
 # ====================================================================== one run of the real code
@@ -440,13 +514,54 @@ def abstract(obs, supplied, final):
 
     if c == supplied:
         which = "supplied"
-    elif final is not None and c == final:
-        which = "used"
     elif final is not None and (c.get("model_config") or {}).get("total_params") is None and no_tp(c) == no_tp(final):
         which = "prepared"
+    elif final is not None and c == final:
+        which = "used"
     else:
         which = "other-" + hashlib.sha1(json.dumps(c, sort_keys=True).encode()).hexdigest()[:6]
     return f"{which}:{int(blank)}:{int(bits['runid'])}"
+
+
+def flat(d, pre=""):
+    out = {}
+    if isinstance(d, dict) and d:
+        for k, v in d.items():
+            out.update(flat(v, f"{pre}.{k}" if pre else str(k)))
+    else:
+        out[pre] = d
+    return out
+
+
+_SCHEMA = {}
+
+
+def initial_vs_raw(raw, got):
+    """Leaf-by-leaf comparison of initial_config.yaml with the configuration the caller passed."""
+    if not _SCHEMA:
+        from omegaconf import OmegaConf
+        from sleap_nn.config.training_job_config import TrainingJobConfig
+
+        _SCHEMA.update(flat(json.loads(json.dumps(OmegaConf.to_container(OmegaConf.structured(TrainingJobConfig()))))))
+    r, g = flat(raw), flat(json.loads(json.dumps(got)))
+    diffs = []
+    for k, v in r.items():
+        if k == "trainer_config.wandb.api_key":
+            if g.get(k) not in ("", None):
+                diffs.append(f"{k}: key not blank")
+        elif k not in g:
+            # a dict given as None / {} may be expanded into (default) leaves below it; a scalar may not vanish
+            below = [x for x in g if x.startswith(k + ".")]
+            if not (v in (None, {}) and below):
+                diffs.append(f"{k}: supplied {v!r}, missing in file")
+        elif g[k] != v:
+            diffs.append(f"{k}: supplied {v!r}, file has {g[k]!r}")
+    for k, v in g.items():
+        if k in r or any(k.startswith(p + ".") and r[p] in (None, {}) for p in r if k.startswith(p + ".")) and v is None:
+            continue
+        if k not in r and v is not None and _SCHEMA.get(k, None) != v:
+            diffs.append(f"{k}: not supplied, file has {v!r} (schema default {_SCHEMA.get(k)!r})")
+    return diffs
 
 
 ORDER = ["initial_config", "training_config", "chunks_config", "best_ckpt", "last_ckpt", "train_chunks", "val_chunks",
@@ -461,7 +576,7 @@ def run_history(case):
       configuration) into the SAME save_ckpt_path / np_chunks_path."""
     scratch = tempfile.mkdtemp(prefix="verif_c19_")
     try:
-        rec1 = run_impl(case["run1"], scratch=scratch, ckpt_name="ckpt")
+        rec1 = run_impl(case["run1"], scratch=scratch, ckpt_name="ckpt", crash_at=case["run1"].get("crash_at"))
         refs = rec1.pop("_refs", None)
         if case.get("same_folder"):
             rec2 = run_impl(case, scratch=scratch, ckpt_name="ckpt", carried=refs, carried_mode="same")
@@ -472,7 +587,7 @@ def run_history(case):
         (getattr(REC, "_rmtree", None) or shutil.rmtree)(scratch, ignore_errors=True)
 
 
-def run_impl(case, scratch=None, ckpt_name="ckpt", carried=None, carried_mode=None):
+def run_impl(case, scratch=None, ckpt_name="ckpt", carried=None, carried_mode=None, crash_at=None):
     """Run the real trainer for `case`; returns the observation record (JSON-able).
     `scratch` given: part of a history (the caller removes it); `carried`: the (supplied, used) configs of
     the earlier run, against which files that run left behind (chunks config.yaml) are abstracted."""
@@ -512,6 +627,7 @@ def run_impl(case, scratch=None, ckpt_name="ckpt", carried=None, carried_mode=No
         from sleap_nn.config.training_job_config import verify_training_cfg
         from sleap_nn.training.model_trainer import ModelTrainer
 
+        raw_input = json.loads(json.dumps(OmegaConf.to_container(cfg, resolve=True)))   # what the caller passes, verbatim
         supplied, _ = norm_cfg(OmegaConf.to_container(verify_training_cfg(cfg.copy()), resolve=True))
         os.environ["WANDB_MODE"] = "offline"
         os.environ["WANDB_SILENT"] = "true"
@@ -526,19 +642,39 @@ def run_impl(case, scratch=None, ckpt_name="ckpt", carried=None, carried_mode=No
         t0 = time.time()
         mt = None
         exc = None
+        import lightning as L
+
+        fit_snapshot = {}
+        orig_fit = L.Trainer.fit
+
+        def fit_spy(self_, *a, **k):
+            # the configuration training actually runs with = what the trainer holds when `fit` is entered
+            if mt is not None and "cfg" not in fit_snapshot:
+                fit_snapshot["cfg"] = json.loads(json.dumps(OmegaConf.to_container(mt.config, resolve=True)))
+            return orig_fit(self_, *a, **k)
+
         REC.start([os.path.join(runroot, "out"), cwd], paths)
+        REC.crash_after = crash_at
+        L.Trainer.fit = fit_spy
         try:
             try:
                 mt = ModelTrainer(cfg)
-                mt.train()
-            except Exception as e:  # noqa: BLE001 — canonicalised below
+                with abort_injection(case.get("abort")):
+                    mt.train()
+            except SimulatedDeath as e:
+                exc = {"class": "SimulatedDeath", "msg": str(e), "where": []}
+            except BaseException as e:  # noqa: BLE001 — canonicalised below
                 import traceback
-                exc = {"class": type(e).__name__, "msg": str(e)[:300],
+                if not isinstance(e, Exception) and not case.get("abort"):
+                    raise      # a real Ctrl-C / SystemExit of the harness itself
+                exc = {"class": type(e).__name__, "msg": str(e)[:300], "module": type(e).__module__,
                        "where": [f"{os.path.basename(f.filename)}:{f.lineno}" for f in traceback.extract_tb(e.__traceback__)
                                  if "sleap_nn" in f.filename][-1:]}
                 with REC.lock:
                     REC.events.append(("RAISE", ""))
                     REC.states.append(None)
+            finally:
+                L.Trainer.fit = orig_fit
             REC.boundary(inner=False, trigger="exit")
             final_state = REC.observe()
         finally:
@@ -554,13 +690,24 @@ def run_impl(case, scratch=None, ckpt_name="ckpt", carried=None, carried_mode=No
             os.close(saved_fds[0]); os.close(saved_fds[1])
             saved_fds = None
         rec["wall"] = round(time.time() - t0, 2)
+        if exc and (exc.get("module", "").startswith("wandb") or exc["class"] in ("TimeoutError", "CommError", "MailboxError")
+                    or ("wandb" in exc["msg"].lower() and "tim" in exc["msg"].lower())):
+            # the wandb service process did not answer (machine load): infrastructure, never a verdict
+            raise RuntimeError(f"infrastructure: wandb service failure during the run: {exc['class']}: {exc['msg'][:200]}") from None
         rec["exception"] = exc
+        try:
+            with io.open(os.path.join(scratch, "console.log"), "rb") as fh:
+                rec["key_in_console_log"] = KEY.encode() in fh.read()
+        except OSError:
+            rec["key_in_console_log"] = False
         rec["hook_errors"] = getattr(REC, "hook_errors", [])
         final = None
         used_cfg = None
         if mt is not None:
             used_cfg = json.loads(json.dumps(OmegaConf.to_container(mt.config, resolve=True)))
             final, _ = norm_cfg(used_cfg)
+        elif REC.last_saved_cfg is not None:   # the constructor never returned (simulated death inside __init__)
+            final, _ = norm_cfg(json.loads(json.dumps(REC.last_saved_cfg)))
         # ---- abstraction of events and of the file system after each event
         raw = list(REC.states)          # raw[0] = before the first write, raw[i+1] = after event i
         filled = [raw[0]]
@@ -620,28 +767,31 @@ def run_impl(case, scratch=None, ckpt_name="ckpt", carried=None, carried_mode=No
         ini = read_config_file(paths["initial_config"]) if os.path.exists(paths["initial_config"]) else None
         trn = read_config_file(paths["training_config"]) if os.path.exists(paths["training_config"]) else None
         if ini and ini[0] == "yaml":
-            want = json.loads(json.dumps(OmegaConf.to_container(verify_training_cfg(cfg.copy()), resolve=True)))
-            want["trainer_config"]["wandb"]["api_key"] = ""
-            got = json.loads(json.dumps(ini[1]))
-            got_key = got["trainer_config"]["wandb"].get("api_key")
-            got["trainer_config"]["wandb"]["api_key"] = ""
-            rec["final"]["initial_equals_supplied"] = got == want
-            rec["final"]["initial_key_field"] = got_key
-        if trn and trn[0] == "yaml" and used_cfg is not None:
-            want = json.loads(json.dumps(used_cfg))
-            want["trainer_config"]["wandb"]["api_key"] = ""
-            got = json.loads(json.dumps(trn[1]))
-            got_key = got["trainer_config"]["wandb"].get("api_key")
-            got["trainer_config"]["wandb"]["api_key"] = ""
-            rec["final"]["training_equals_used"] = got == want
-            rec["final"]["training_key_field"] = got_key
+            # clause (b), against the RAW input (not against the repo's own verify_training_cfg): every leaf the
+            # caller supplied is in the file unchanged (key blanked); leaves the caller did not supply hold the
+            # schema default (or None)
+            diffs = initial_vs_raw(raw_input, ini[1])
+            rec["final"]["initial_equals_supplied"] = not diffs
+            rec["final"]["initial_diffs"] = diffs[:6]
+            rec["final"]["initial_key_field"] = ini[1]["trainer_config"]["wandb"].get("api_key")
+        snap = fit_snapshot.get("cfg")
+        rec["final"]["fit_entered"] = snap is not None
+        if trn and trn[0] == "yaml" and snap is not None:
+            # clause (c): the final file == the configuration the trainer held when `fit` was entered (key blanked),
+            # plus wandb.run_id iff tracking
+            want, _ = norm_cfg(snap)
+            got, bits = norm_cfg(trn[1])
+            rec["final"]["training_equals_used"] = (got == want) and (bits["runid"] == bool(case["wandb"]))
+            rec["final"]["training_key_field"] = trn[1]["trainer_config"]["wandb"].get("api_key")
+            rec["final"]["training_has_run_id"] = bits["runid"]
+        used_ref = norm_cfg(snap)[0] if snap is not None else final
         # checkpoints written by THIS run = *.ckpt files whose stored config is the config this run used
         # (a same-folder history also holds the earlier run's best.ckpt / last.ckpt)
         mine = []
         for fn in sorted(os.listdir(ckpt_dir)) if os.path.isdir(ckpt_dir) else []:
             if fn.endswith(".ckpt") and not os.path.islink(os.path.join(ckpt_dir, fn)):
                 got = read_config_file(os.path.join(ckpt_dir, fn))
-                if got[0] == "ckpt" and got[1] is not None and final is not None and norm_cfg(got[1])[0] == final:
+                if got[0] == "ckpt" and got[1] is not None and used_ref is not None and norm_cfg(got[1])[0] == used_ref:
                     mine.append(fn)
         rec["final"]["ckpts_of_this_run"] = mine
         rec["final"]["best_ckpt"] = any(f.startswith("best") for f in mine)
@@ -660,11 +810,14 @@ def run_impl(case, scratch=None, ckpt_name="ckpt", carried=None, carried_mode=No
 
 
 def improved_rounds(logdir, case):
-    """Per validation epoch: did val_loss improve on the best so far?  Read from Lightning's own
-    metrics.csv (independent of the logged trace).  Without checkpointing nothing depends on it."""
-    if not case["ckpt"] or case["epochs"] == 1:
-        return [True] * case["epochs"]
+    """Per completed validation epoch: did val_loss improve on the best so far?  Read from Lightning's own
+    metrics.csv (recorded from the implementation's log, not from the write trace; listed under `trusted`).
+    The first epoch always "improves" (no checkpoint yet).  A missing / short log is an infrastructure error."""
+    n = case["abort"]["epoch"] if case.get("abort") else case["epochs"]
+    if case.get("crash_at") or not case["ckpt"] or n <= 1:
+        return [True] * n
     import csv
+    import math
 
     out, best = [], None
     vers = sorted(Path(logdir).glob("version_*"), key=lambda p: int(p.name.split("_")[1]))
@@ -674,14 +827,19 @@ def improved_rounds(logdir, case):
                 v = row.get("val_loss")
                 if v not in (None, ""):
                     v = float(v)
+                    if math.isnan(v):
+                        v = math.inf       # ModelCheckpoint treats a NaN monitor value as +inf (mode="min")
                     out.append(best is None or v < best)
                     best = v if best is None else min(best, v)
-    return out or [True] * case["epochs"]
+    if len(out) != n:
+        raise RuntimeError(f"infrastructure: metrics.csv has {len(out)} val_loss rows, expected {n} ({logdir})")
+    return out
 
 
 # ====================================================================== oracle (independent of the model)
 def oracle(rec):
-    """Property C19 on the observed run: list of (what, detail)."""
+    """Property C19 on the observed run: list of (what, detail).  Uses only scan hits, the exception, file
+    read-backs, the raw input config and the config snapshot taken when `Trainer.fit` was entered."""
     bad = []
     case = rec["case"]
     leaks = [(i, b) for i, b in enumerate(rec["boundaries"]) if b["hits"]]
@@ -690,16 +848,30 @@ def oracle(rec):
         files = sorted({h for _, bb in leaks for h in bb["hits"]})
         bad.append(("key_on_disk", f"API key on disk at {len(leaks)}/{len(rec['boundaries'])} crash points; first at "
                     f"boundary #{i} (after {b['n']} writes, trigger {b['trigger']}); files: {files}"))
-    if rec["exception"]:
-        bad.append(("raised", f"{rec['exception']['class']}: {rec['exception']['msg'][:160]} at {rec['exception']['where']}"))
+    if rec.get("key_in_console_log"):
+        bad.append(("key_on_disk", "API key printed to the console log of the run"))
+    exc = rec["exception"]
+    died = bool(exc) and exc["class"] == "SimulatedDeath"
+    aborted = bool(exc) and bool(case.get("abort")) and exc["class"] in ("InjectedAbort", "SystemExit", "KeyboardInterrupt")
+    if died:
+        return bad        # a killed process owes nothing but "no key on disk"
+    if exc and not aborted:
+        bad.append(("raised", f"{exc['class']}: {exc['msg'][:160]} at {exc['where']}"))
         return bad
+    if case.get("abort") and not aborted:
+        bad.append(("harness", "abort was injected but train() returned normally"))
     f = rec["final"]
     if f["initial_equals_supplied"] is not True:
-        bad.append(("artefact", "initial_config.yaml missing or not equal to the supplied configuration"))
+        bad.append(("artefact", "initial_config.yaml missing or not equal to the supplied configuration"
+                    + (f": {f.get('initial_diffs')}" if f.get("initial_diffs") else "")))
     if f["training_equals_used"] is not True:
-        bad.append(("artefact", "training_config.yaml missing or not equal to the configuration actually used"))
-    if case["ckpt"] != f["best_ckpt"] or case["ckpt"] != f["last_ckpt"]:
-        bad.append(("artefact", f"save_ckpt={case['ckpt']} but best.ckpt={f['best_ckpt']} last.ckpt={f['last_ckpt']}"))
+        bad.append(("artefact", "training_config.yaml missing or not equal to the configuration actually used "
+                    f"(snapshot at fit entry; run_id present={f.get('training_has_run_id')}, tracking={case['wandb']})"))
+    if not aborted:
+        # "a checkpoint when checkpointing is on" — which files is up to model_ckpt.* (compared with the model instead)
+        has = bool(f["ckpts_of_this_run"])
+        if case["ckpt"] != has:
+            bad.append(("artefact", f"save_ckpt={case['ckpt']} but checkpoints of this run: {f['ckpts_of_this_run']}"))
     if case["fw"] == "torch_dataset_np_chunks" and case["delete"] and f["chunk_files"]:
         bad.append(("artefact", f"chunk deletion requested but chunk files remain: {f['chunk_files'][:3]}"))
     return bad
@@ -709,7 +881,8 @@ def oracle(rec):
 def flags_line(op, version, case, rounds):
     b = lambda x: "1" if x else "0"  # noqa: E731
     return (f"{op} {version} {case['model']} {case['fw']} {b(case['wandb'])} {b(case['ckpt'])} "
-            f"{b(case['structured'])} {b(case['delete'])} {len(rounds)} " + " ".join(b(x) for x in rounds)).strip()
+            f"{b(case['structured'])} {b(case['delete'])} {b(case.get('save_last', True))} {len(rounds)} "
+            + " ".join(b(x) for x in rounds)).strip()
 
 
 def leak_classes(fs_str):
@@ -781,7 +954,8 @@ def check_case(chk: Check, case, rec=None):
         rec1, rec2 = run_history(case)
         _r, v1 = check_case(chk, case["run1"], rec=rec1)
         chk.tag(f"run1_verdict={v1}")
-        return check_case(chk, case, rec=dict(rec2, rounds1=rec1["rounds"]))
+        return check_case(chk, case, rec=dict(rec2, rounds1=rec1["rounds"],
+                                               a_left_ckpt=sorted(rec1["final"].get("ckpts_of_this_run") or [])))
     rec = rec or run_impl(case)
     rec.pop("_refs", None)
     rounds = rec["rounds"]
@@ -793,9 +967,18 @@ def check_case(chk: Check, case, rec=None):
         lines = [l2("tracer", "repaired"), l2("fsr", "repaired"), l2("tracer", "asis"), l2("fsr", "asis"),
                  l2("tracer", "keyfixed"), l2("fsr", "keyfixed")]
     elif case.get("same_folder"):
+        k = case["run1"].get("crash_at")
+
         def l3(op, ver):
-            return flags_line(op, ver, case["run1"], rec["rounds1"]) + " " + flags_line("", "", case, rounds).strip()
-        lines = [l3("traces", "repaired"), l3("fss", "repaired"), l3("traces", "asis"), l3("fss", "asis")]
+            head = flags_line(op if k is None else f"{op} {k}", ver, case["run1"], rec["rounds1"])
+            return head + " " + flags_line("", "", case, rounds).strip()
+        if k is None:
+            lines = [l3("traces", "repaired"), l3("fss", "repaired"), l3("traces", "asis"), l3("fss", "asis")]
+        else:   # run A died at its crash point k
+            lines = [l3("tracex", "repaired"), l3("fsx", "repaired"), l3("tracex", "asis"), l3("fsx", "asis")]
+    elif case.get("abort"):
+        lines = [flags_line("tracea", "repaired", case, rounds), flags_line("fsa", "repaired", case, rounds),
+                 flags_line("tracea", "asis", case, rounds), flags_line("fsa", "asis", case, rounds)]
     else:
         lines = [flags_line("trace", "repaired", case, rounds), flags_line("fs", "repaired", case, rounds),
                  flags_line("trace", "asis", case, rounds), flags_line("fs", "asis", case, rounds)]
@@ -804,15 +987,29 @@ def check_case(chk: Check, case, rec=None):
         raise RuntimeError(f"driver rejected case {case}: {out}")
     rep_t, asis_t = out[0].split()[1:], out[2].split()[1:]
     rep_fs, asis_fs = [s.strip() for s in out[1][3:].split("|")], [s.strip() for s in out[3][3:].split("|")]
+    if case.get("crash_at"):     # this run was killed after its k-th write: it must be the k-prefix of the model's run
+        k = case["crash_at"]
+        rep_t, asis_t, rep_fs, asis_fs = rep_t[:k], asis_t[:k], rep_fs[:k + 1], asis_fs[:k + 1]
     key = (case["model"], case["fw"], case["wandb"], case["ckpt"], case["structured"], case["delete"],
            case["sep_chunks"], case["epochs"], bool(case.get("reuse")), bool(case.get("same_folder")),
-           json.dumps(case.get("run1"), sort_keys=True) if case.get("same_folder") else None)
+           json.dumps(case.get("run1"), sort_keys=True) if case.get("same_folder") else None,
+           case.get("save_last", True), json.dumps(case.get("abort")), case.get("crash_at"),
+           bool(case.get("auto_prep")), bool(case.get("early_stop")))
     chk.case(key, {"case": case, "impl_trace": rec["trace"], "crash_points_scanned": len(rec["boundaries"]),
                    "wall_s": rec["wall"]},
              tags=[f"model={case['model']}", f"fw={case['fw']}", f"wandb={case['wandb']}", f"ckpt={case['ckpt']}",
                    f"structured={case['structured']}", f"delete={case['delete']}", f"epochs={case['epochs']}",
                    "mode=" + ("reuse_chunks(run 2)" if case.get("reuse") else
-                             "same_folder(run B)" if case.get("same_folder") else "fresh")])
+                             "same_folder(run B)" if case.get("same_folder") else "fresh"),
+                   f"sep_chunks={case['sep_chunks']}", f"save_last={case.get('save_last', True)}",
+                   "rounds=" + ("".join("T" if r else "F" for r in rounds) or "-") if case["ckpt"] else "rounds=n/a(ckpt off)",
+                   f"abort={case['abort']['kind']}@epoch{case['abort']['epoch']}" if case.get("abort") else "abort=no",
+                   f"killed_after_write={case['crash_at']}" if case.get("crash_at") else "killed=no",
+                   f"auto_prep(scale/crop None)={bool(case.get('auto_prep'))}", f"early_stopping={bool(case.get('early_stop'))}"]
+             + ([f"A_left_ckpt={rec.get('a_left_ckpt')}", f"A_killed={case['run1'].get('crash_at') is not None}"]
+                if case.get("same_folder") else []))
+    if case["ckpt"] and False in rounds:
+        chk.extra["runs_with_non_improved_epoch"] = chk.extra.get("runs_with_non_improved_epoch", 0) + 1
     chk.extra["crash_points_scanned"] = chk.extra.get("crash_points_scanned", 0) + len(rec["boundaries"])
     if rec["hook_errors"]:
         raise RuntimeError(f"recorder hook failed: {rec['hook_errors'][:3]}")
@@ -858,9 +1055,12 @@ def check_case(chk: Check, case, rec=None):
 
 
 # ====================================================================== cases
-def mk(model, fw, wandb, ckpt, structured, delete, sep=True, epochs=1, seed=1000, lr=1e-4):
-    return {"model": model, "fw": fw, "wandb": bool(wandb), "ckpt": bool(ckpt), "structured": bool(structured),
-            "delete": bool(delete), "sep_chunks": bool(sep), "epochs": epochs, "seed": seed, "lr": lr}
+def mk(model, fw, wandb, ckpt, structured, delete, sep=True, epochs=1, seed=1000, lr=1e-4, save_last=True, **extra):
+    c = {"model": model, "fw": fw, "wandb": bool(wandb), "ckpt": bool(ckpt), "structured": bool(structured),
+         "delete": bool(delete), "sep_chunks": bool(sep), "epochs": epochs, "seed": seed, "lr": lr,
+         "save_last": bool(save_last)}
+    c.update(extra)
+    return c
 
 
 def mk_reuse(rng, model, wandb, ckpt, structured, delete, epochs=1):
@@ -894,60 +1094,92 @@ def rand_case(rng, **kw):
     return c
 
 
+def mk_abort(rng, kind, epoch, **kw):
+    c = rand_case(rng, epochs=max(2, epoch + 1), **kw)
+    c["abort"] = {"epoch": epoch, "kind": kind}
+    return c
+
+
+def mk_killed_A(rng, b=None):
+    """Run A is killed right after one of its writes that precede `fit` (initial / training / chunks config /
+    re-saved training config); run B (another configuration) is then started in the same folder."""
+    a = rand_case(rng)
+    a["crash_at"] = rng.randint(1, 3 + (a["fw"] == "torch_dataset_np_chunks"))
+    return mk_same(rng, a, b or rand_case(rng))
+
+
 def main(chk: Check):
     chk.build_and_audit()
     import_repo()
     rng = chk.rng
     cases = []
-    # the two known-finding witnesses always run (they are the replays)
+    opt = lambda: {"save_last": rng.random() < 0.5, "auto_prep": rng.random() < 0.4, "early_stop": rng.random() < 0.3}  # noqa: E731
+    # the witnesses of the (fixed) findings F-C19 / F-C19b always run first (they are the regression replays)
     w_key = mk("centered_instance", "torch_dataset", 0, 1, 0, 1)
     w_rid = mk("centered_instance", "torch_dataset", 1, 0, 1, 1)
     cases += [w_key, w_rid]
     if chk.thorough:
         for m, fw, w, c, s, d in itertools.product(MODELS, FWS, [0, 1], [0, 1], [0, 1], [0, 1]):
-            cases.append(mk(m, fw, w, c, s, d, sep=rng.random() < 0.7, seed=rng.randrange(2**31)))
+            cases.append(mk(m, fw, w, c, s, d, sep=rng.random() < 0.7, seed=rng.randrange(2**31), **opt()))
         for m, w, c, s, d in itertools.product(MODELS, [0, 1], [0, 1], [0, 1], [0, 1]):   # grid x reuse
             cases.append(mk_reuse(rng, m, w, c, s, d))
         for m, fw, w, c, s, d in itertools.product(MODELS, FWS, [0, 1], [0, 1], [0, 1], [0, 1]):   # grid x same folder
-            cases.append(mk_same(rng, rand_case(rng), mk(m, fw, w, c, s, d, seed=rng.randrange(2**31))))
-        for _ in range(8):   # more than one validation epoch: best.ckpt only when the loss improved
+            cases.append(mk_same(rng, rand_case(rng, **opt()), mk(m, fw, w, c, s, d, seed=rng.randrange(2**31), **opt())))
+        for _ in range(8):   # more than one validation epoch: checkpoints only when the loss improved
             cases.append(mk(rng.choice(MODELS), rng.choice(FWS), rng.random() < 0.5, 1, rng.random() < 0.5,
-                            rng.random() < 0.5, sep=rng.random() < 0.7, epochs=rng.choice([2, 3]),
-                            seed=rng.randrange(2**31), lr=rng.choice([1e-4, 0.05, 0.5])))
+                            rng.random() < 0.5, sep=rng.random() < 0.7, epochs=rng.choice([2, 3, 4]),
+                            seed=rng.randrange(2**31), lr=rng.choice([1e-4, 0.05, 2.0]), save_last=rng.random() < 0.5))
+        for kind, epoch in itertools.product(["exception", "interrupt"], [0, 1, 2]):   # aborted inside fit
+            for _ in range(3):
+                cases.append(mk_abort(rng, kind, epoch, **opt()))
+        for _ in range(16):                                                          # A killed, then B in its folder
+            cases.append(mk_killed_A(rng))
     else:
         ms = MODELS[:]
         rng.shuffle(ms)
-        # a covering set (every flag on and off, both frameworks, chunks next to / apart from the checkpoints) …
-        cases.append(mk(ms[0], "torch_dataset_np_chunks", 1, 1, 0, 1, sep=True, seed=rng.randrange(2**31)))
-        cases.append(mk(ms[1], "torch_dataset_np_chunks", 0, 0, 1, 0, sep=False, seed=rng.randrange(2**31)))
-        cases.append(mk(ms[2], "torch_dataset_np_chunks", 1, 1, 1, 1, sep=True, seed=rng.randrange(2**31)))
-        cases.append(mk(ms[3], "torch_dataset", 1, 1, 0, 0, seed=rng.randrange(2**31)))
-        # … plus seeded random grid points and one multi-epoch run
-        for _ in range(2):
-            cases.append(mk(rng.choice(MODELS), rng.choice(FWS), rng.random() < 0.5, rng.random() < 0.5,
-                            rng.random() < 0.5, rng.random() < 0.5, sep=rng.random() < 0.7, seed=rng.randrange(2**31)))
-        cases.append(mk(rng.choice(MODELS), rng.choice(FWS), rng.random() < 0.5, 1, 0, 1, epochs=rng.choice([2, 3]),
-                        seed=rng.randrange(2**31), lr=rng.choice([1e-4, 0.05, 0.5])))
-        # two-run histories (use_existing_chunks): deletion requested after re-use for two different model types
-        # (so at least one is not the bottom-up model of F-C19c), and one history that keeps the chunks
+        # a covering set (every flag on and off, both frameworks, chunks next to / apart from the checkpoints,
+        # save_last on / schema default None, scale+crop size given / computed, early stopping on / off) …
+        cases.append(mk(ms[0], "torch_dataset_np_chunks", 1, 1, 0, 1, sep=True, seed=rng.randrange(2**31), auto_prep=True))
+        cases.append(mk(ms[1], "torch_dataset_np_chunks", 0, 0, 1, 0, sep=False, seed=rng.randrange(2**31), early_stop=True))
+        cases.append(mk(ms[2], "torch_dataset_np_chunks", 1, 1, 1, 1, sep=True, seed=rng.randrange(2**31), save_last=False))
+        cases.append(mk(ms[3], "torch_dataset", 1, 1, 0, 0, seed=rng.randrange(2**31), save_last=False, auto_prep=True))
+        # … plus a seeded random grid point
+        cases.append(rand_case(rng, **opt()))
+        # two-run histories (use_existing_chunks): deletion requested after re-use for two different model types,
+        # and one history that keeps the chunks
         ms2 = rng.sample(MODELS, 2)
         for m in ms2:
             cases.append(mk_reuse(rng, m, rng.random() < 0.5, rng.random() < 0.5, rng.random() < 0.5, 1))
         cases.append(mk_reuse(rng, rng.choice(MODELS), rng.random() < 0.5, rng.random() < 0.5, rng.random() < 0.5, 0))
-    if not chk.thorough:
         # same-folder histories: B into A's folder, different model types / flags; A leaves checkpoints and chunks
-        # in the first, nothing but configs in the second, random in the third
+        # in the first (and B has no last.ckpt of its own), nothing but configs in the second, random in the third
         ma, mb = rng.sample(MODELS, 2)
-        cases.append(mk_same(rng, rand_case(rng, model=ma, fw="torch_dataset_np_chunks", ckpt=True, delete=False),
-                             rand_case(rng, model=mb, ckpt=True)))
+        cases.append(mk_same(rng, rand_case(rng, model=ma, fw="torch_dataset_np_chunks", ckpt=True, delete=False, save_last=True),
+                             rand_case(rng, model=mb, ckpt=True, save_last=False)))
         cases.append(mk_same(rng, rand_case(rng, model=mb, fw="torch_dataset", ckpt=False),
                              rand_case(rng, model=ma, fw="torch_dataset_np_chunks")))
-        cases.append(mk_same(rng, rand_case(rng), rand_case(rng, epochs=rng.choice([1, 2]))))
+        cases.append(mk_same(rng, rand_case(rng, **opt()), rand_case(rng, epochs=rng.choice([1, 2]), **opt())))
+        # aborted inside fit: an exception after one complete epoch (tracking on, structured config: the finally
+        # block must add run_id), a Ctrl-C before the first epoch (chunk framework: chunks must still be deleted)
+        cases.append(mk_abort(rng, "exception", 1, wandb=True, structured=True, ckpt=True))
+        cases.append(mk_abort(rng, "interrupt", 0, fw="torch_dataset_np_chunks", delete=True))
+        # run A killed at a write boundary, then run B in the same folder
+        cases.append(mk_killed_A(rng))
     verdicts = {}
     for i, case in enumerate(cases):
         rec, verdict = check_case(chk, case)
         verdicts[i] = (verdict, rec)
         chk.tag(f"verdict={verdict}")
+    # at least one run whose validation loss does NOT improve in some epoch (`ckptRound … false`: nothing written)
+    for lr, ep in ((2.0, 3), (0.05, 4), (2.0, 4), (0.5, 4)):
+        if chk.extra.get("runs_with_non_improved_epoch", 0) >= (4 if chk.thorough else 1):
+            break
+        c = mk(rng.choice(MODELS), rng.choice(FWS), rng.random() < 0.5, 1, rng.random() < 0.5, 1, epochs=ep,
+               seed=rng.randrange(2**31), lr=lr, save_last=rng.random() < 0.5)
+        rec, verdict = check_case(chk, c)
+        verdicts[len(verdicts)] = (verdict, rec)
+        chk.tag(f"verdict={verdict}")
+    chk.extra.setdefault("runs_with_non_improved_epoch", 0)
     vs = [v for v, _ in verdicts.values()]
     flush_pending(chk, vs)
     pinned = "repaired" not in vs     # no run of this tree shows repaired behaviour
@@ -984,23 +1216,48 @@ if __name__ == "__main__":
         build_targets=["SleapVerif.Model.TrainTrace", "SleapVerif.Model.Proto"],
         trusted=[
             "Lean 4.33 kernel; axioms ⊆ {propext, Classical.choice, Quot.sound} (audited per run)",
-            "hand-written model TrainTrace.lean of the config-persisting writes of ModelTrainer.__init__/train(); tied to "
-            "/repo by exact comparison of the logged write trace and of the file system after every write on the explored runs",
+            "hand-written model TrainTrace.lean of the config-persisting writes of ModelTrainer.__init__/train(); the "
+            "no-key / totality theorems for Version.repaired hold by the constants of that model (blankInit/blankTrain = true, "
+            "no raise) — they say something about /repo only through the exact comparison of the logged write trace and of "
+            "the file system after every write on the explored runs",
             "completeness of the write log: OmegaConf.save / TorchCheckpointIO / torch.save / shutil.rmtree wrappers plus "
-            "sys.addaudithook('open','os.rename') in this process; files written by child processes (wandb service) are "
-            "scanned at every boundary but not logged as events",
+            "sys.addaudithook('open','os.rename','os.remove') in this process; files written by child processes (wandb "
+            "service; dataloader workers are never used: num_workers=0) are scanned at every boundary but not logged as events",
             "the key scan is a byte search (plus inside zip members) for the literal key: an encoded/compressed copy "
-            "would not be seen; bytes written by Lightning/wandb internals are scanned, not modelled",
+            "would not be seen; bytes written by Lightning/wandb internals are scanned, not modelled; the redirected console "
+            "output of each run is scanned once, at its end",
             "wandb offline mode with wandb_mode='offline' in the config: `wandb.login(key)` itself is never executed (no network)",
+            "values RECORDED from the implementation and fed to the model side: (i) `rounds` (per-epoch 'val_loss improved') from "
+            "Lightning's metrics.csv — a missing/short log is an infrastructure error; (ii) the abstraction label `used` = equals "
+            "trainer.config after the run, (iii) `supplied` = equals verify_training_cfg(input), (iv) `prepared` = `used` minus "
+            "total_params (whatever __init__ filled in is accepted as 'prepared'). The ORACLE does not use (ii)-(iv): it compares "
+            "initial_config.yaml leaf-by-leaf with the raw input (+ schema defaults from TrainingJobConfig() for leaves not "
+            "supplied) and the final file with a snapshot of trainer.config taken when Trainer.fit is entered, + run_id iff tracking",
+            "process death is simulated by scanning between writes; a killed run A is simulated by raising out of the trainer "
+            "right after one of its pre-fit writes (no try/finally is active there)",
+            "checkpoint schedule = the installed Lightning's ModelCheckpoint (no last.ckpt without a top-k save; -v1 names when a "
+            "file of that name exists; KeyboardInterrupt in fit becomes SystemExit(1) after teardown)",
         ],
-        rule="flag grid model(4) x framework(2) x wandb x ckpt x structured/plain x delete_chunks, fresh runs, plus two-run "
-             "histories (run 1 keeps its chunks, run 2 has use_existing_chunks=True on the same np_chunks_path with its own "
-             "wandb/ckpt/structured/delete flags). quick: 2 former-finding witnesses + 4 covering + 2 random + 1 multi-epoch "
-             "fresh runs + 3 two-run histories (2 with deletion requested, distinct model types); thorough: all 128 fresh + 64 histories (grid x reuse) + 8 multi-epoch; chunk dir "
-             "apart from / inside the checkpoint dir; distinct = distinct flag tuple (incl. fresh/reuse); every run is "
-             "non-trivial (real 1-step training, every write boundary scanned)",
-        assumptions=["single process, rank 0 (get_dist_rank() is None)", "use_existing_chunks only with the chunk framework and chunks left by an earlier "
-                     "run of the same model type (anything else is rejected by ModelTrainer.__init__); litdata framework is outside "
-                     "the property's quantifier", "the key is present in the supplied config in every run"],
+        rule="real 1-step-per-epoch trainings, every write boundary scanned. Flags: model(4) x framework(2) x wandb x ckpt x "
+             "structured/plain x delete_chunks x save_last(True / schema default None), plus per run: chunk dir apart from / "
+             "inside the checkpoint dir, scale+crop size given or computed, early stopping on/off, 1-4 epochs with "
+             "learning rates that make some epochs not improve. Run shapes: fresh; two-run history `reuse` (run 2 has "
+             "use_existing_chunks=True on run 1's chunk dir); two-run history `same_folder` (run B, another configuration, in run "
+             "A's folder; A completed, or A killed right after one of its pre-fit writes); aborted inside fit (exception / "
+             "Ctrl-C at the start of epoch 0, 1 or 2). quick: 2 former-finding witnesses + 4 covering + 1 random fresh, 3 reuse + "
+             "3 same-folder + 1 killed-A histories, 2 aborted runs, the F-C19c witness history and 1-4 multi-epoch runs until one "
+             "has a non-improved epoch (26-29 trainings). thorough: all 128 fresh grid points (save_last etc. random), 64 reuse, "
+             "128 same-folder, 16 killed-A histories, 18 aborted, 8+ multi-epoch. distinct = distinct case tuple.",
+        assumptions=["single process, rank 0 (get_dist_rank() is None); num_workers = 0",
+                     "model_ckpt.save_top_k is pinned to 1 (save_last is a flag); with save_top_k >= 2 a fresh run writes "
+                     "best-v1.ckpt itself, with 0 no best.ckpt — not modelled, never run",
+                     "use_existing_chunks only with the chunk framework and chunks left by an earlier run of the same model "
+                     "type (anything else is rejected by ModelTrainer.__init__); re-use runs always have scale given (with "
+                     "scale=None __init__ would fill it in and the second file would no longer be the supplied config)",
+                     "litdata framework is outside the property's quantifier; UNet backbone only",
+                     "the key is present in the supplied config in every run (api_key=None / absent never run); "
+                     "save_ckpt_path is always given (None -> '.' never run); resume_ckpt_path, prv_runid, profiler, "
+                     "trainer_strategy, rank != 0, the check_memory fall-back to ./train_chunks: never run",
+                     "a same-folder history has two runs; use_existing_chunks in the same folder is not run"],
     )
     run_check(chk, main, replay)
